@@ -4,7 +4,12 @@
 // Close* are release operations. In pass-through mode it is io.Pipe itself.
 //
 // Its observable behaviour is checked against the standard library's own
-// pipe.go, virtualised by vsrewrite (package viogen), in harness "pipeeq".
+// pipe.go, virtualised by vsrewrite (package viogen), by tools/pipeeq.sh: 80
+// scripts of up to 2 writers x 2 readers x close variants, all interleavings up
+// to preemption bound 2, equal sets of outcomes - except one script with two
+// writers queued on the pipe, where the standard library lets the second writer
+// hand one more piece to a reader that was already waiting when the pipe was
+// closed. Nothing in the repository writes to one pipe from two goroutines.
 package vio
 
 import (
@@ -89,6 +94,9 @@ func (p *pipe) write(b []byte) (n int, err error) {
 }
 
 func (p *pipe) closeRead(err error) error {
+	if vs.Active() && !vs.Aborting() {
+		vs.Point("pipe.CloseRead", unsafe.Pointer(p))
+	}
 	if err == nil {
 		err = ErrClosedPipe
 	}
@@ -101,6 +109,9 @@ func (p *pipe) closeRead(err error) error {
 }
 
 func (p *pipe) closeWrite(err error) error {
+	if vs.Active() && !vs.Aborting() {
+		vs.Point("pipe.CloseWrite", unsafe.Pointer(p))
+	}
 	if err == nil {
 		err = io.EOF
 	}
